@@ -315,7 +315,10 @@ def check_rearm(rep, prog, b, states, timer, accept_call):
         starts = [0]
     else:
         for (a, s) in c.branch_edges:
+            known = set(cnd.expand_literals(prog, b, set(c.must_literals(a))))
             for l in cnd.expand_literals(prog, b, set(c.switch_literals(a, s))):
+                if l in known:
+                    continue        # not decided by THIS branch: it already held before it
                 if states is not None and l[0] == "variant" and l[3] == "PortState" and set(l[2]) <= states \
                         and df.path_fields(l[1]) == ("port_state",):
                     starts.append(s)
